@@ -24,6 +24,9 @@ pub enum Kind {
     Tag,
     /// always fails, and the failure is itself a `reval::Error` (the `param.try_into()?` idiom)
     ER,
+    /// always fails, and the failure is itself a `reval::Error::UserFunctionError` naming ANOTHER function (a function that
+    /// evaluates an inner ruleset and propagates its failure with `?`)
+    EU,
     /// returns a Float NaN (a value that is not equal to itself)
     NaN,
     /// returns the Int 0 / the empty string (values a sloppy implementation might treat as "false" or "nothing")
@@ -84,6 +87,9 @@ pub fn outcome_of(kind: Kind, name: &str, arg: &Value, fault: bool, j: usize) ->
     if kind == Kind::ER {
         return Err(reval::Error::InvalidType.to_string());
     }
+    if kind == Kind::EU {
+        return Err(inner_failure().to_string());
+    }
     if fault || kind == Kind::E {
         return Err(format!("boom {name} #{j}"));
     }
@@ -96,8 +102,13 @@ pub fn outcome_of(kind: Kind, name: &str, arg: &Value, fault: bool, j: usize) ->
         Kind::NaN => Value::Float(f64::NAN),
         Kind::Zero => Value::Int(0),
         Kind::Empty => Value::String(String::new()),
-        Kind::E | Kind::ER => unreachable!(),
+        Kind::E | Kind::ER | Kind::EU => unreachable!(),
     })
+}
+
+/// what a function of kind EU fails with: the failure of some inner function, already wrapped by an inner evaluation
+pub fn inner_failure() -> reval::Error {
+    reval::Error::UserFunctionError { function: "inner_lookup".to_string(), error: anyhow::anyhow!("inner boom") }
 }
 
 pub struct TFn {
@@ -136,6 +147,13 @@ impl UserFunction for TFn {
         if self.desc.kind == Kind::ER {
             return Err(anyhow::Error::new(reval::Error::InvalidType));
         }
+        if self.desc.kind == Kind::EU {
+            return Err(anyhow::Error::new(inner_failure()));
+        }
+        // "tgoff…": from now on (until the harness resets the switch) the "tg…" functions declare themselves non-cacheable
+        if self.desc.name.starts_with("tgoff") {
+            TOGGLE_CACHEABLE.store(false, std::sync::atomic::Ordering::SeqCst);
+        }
         outcome.map_err(|m| anyhow::anyhow!(m))
     }
 
@@ -146,7 +164,7 @@ impl UserFunction for TFn {
     fn cacheable(&self) -> bool {
         // functions named "tg…" declare whatever the switch says at the moment they are asked (a price feed that is
         // repeatable while the market is closed, …); the harness flips the switch only between evaluations
-        if self.desc.name.starts_with("tg") {
+        if self.desc.name.starts_with("tg") && !self.desc.name.starts_with("tgoff") {
             return TOGGLE_CACHEABLE.load(std::sync::atomic::Ordering::SeqCst);
         }
         self.desc.cacheable
@@ -177,6 +195,8 @@ pub struct ModelHost<'a> {
     pub symbols: &'a BTreeMap<String, Value>,
     pub plan: &'a FaultPlan,
     cache: Vec<(&'static str, Value, Value)>,
+    /// set when a "tgoff…" function has been invoked in this evaluation: the "tg…" functions are non-cacheable from then on
+    tg_off: bool,
     counts: Vec<(&'static str, Value, usize)>,
     /// every call site reached: (function, argument)
     pub calls: Vec<(String, Value)>,
@@ -187,7 +207,7 @@ pub struct ModelHost<'a> {
 
 impl<'a> ModelHost<'a> {
     pub fn new(fns: &'a [FnDesc], symbols: &'a BTreeMap<String, Value>, plan: &'a FaultPlan) -> Self {
-        ModelHost { fns, symbols, plan, cache: vec![], counts: vec![], calls: vec![], invocations: vec![], cache_hits: 0 }
+        ModelHost { fns, symbols, plan, tg_off: false, cache: vec![], counts: vec![], calls: vec![], invocations: vec![], cache_hits: 0 }
     }
 }
 
@@ -201,7 +221,12 @@ impl Host for ModelHost<'_> {
             return CallRes::Unknown;
         };
         self.calls.push((name.to_string(), arg.clone()));
-        if d.cacheable {
+        // what the function declares at the moment of this call
+        let cacheable = d.cacheable && !(self.tg_off && d.name.starts_with("tg") && !d.name.starts_with("tgoff"));
+        if d.name.starts_with("tgoff") {
+            self.tg_off = true;
+        }
+        if cacheable {
             if let Some((_, _, v)) = self.cache.iter().find(|(n, a, _)| *n == d.name && same(a, arg)) {
                 self.cache_hits += 1;
                 return CallRes::Ok(v.clone());
@@ -221,7 +246,7 @@ impl Host for ModelHost<'_> {
         self.invocations.push((d.name, arg.clone(), outcome.clone()));
         match outcome {
             Ok(v) => {
-                if d.cacheable {
+                if cacheable {
                     self.cache.push((d.name, arg.clone(), v.clone()));
                 }
                 CallRes::Ok(v)
